@@ -4,6 +4,7 @@ import (
 	"encoding/json"
 	"fmt"
 	"math/big"
+	"strings"
 
 	"github.com/formancehq/numscript"
 	"github.com/formancehq/numscript/internal/parser"
@@ -147,6 +148,10 @@ func shortObserved(o Outcome) (out string) {
 func (c *Ctx) addScenario(s Scenario, kind string) *CaseInfo {
 	o, log := s.run()
 	term, parsedOK := s.coq(o, log)
+	if c.prop == "C02" {
+		// how many postings the implementation has produced after each statement (prefix executions)
+		term = fmt.Sprintf("(mk_c02case %s %s)", term, coqIntList(s.prefixPostingCounts(o)))
+	}
 	ci := s.info(kind)
 	ci.Coq = term
 	ci.Class = o.Class
@@ -159,6 +164,56 @@ func (c *Ctx) addScenario(s Scenario, kind string) *CaseInfo {
 	}
 	c.add(ci)
 	return ci
+}
+
+func coqIntList(xs []int) string {
+	var ys []string
+	for _, x := range xs {
+		if x < 0 {
+			ys = append(ys, fmt.Sprintf("(%d)", x))
+		} else {
+			ys = append(ys, fmt.Sprint(x))
+		}
+	}
+	return coqList(ys)
+}
+
+// prefixPostingCounts runs the script truncated after each statement (same variables, same store
+// content) and returns the number of postings of each prefix; -1 when a prefix does not succeed.
+func (s Scenario) prefixPostingCounts(whole Outcome) []int {
+	if whole.Class != "ok" {
+		return nil
+	}
+	pr := parser.Parse(s.Text)
+	if len(pr.Errors) != 0 {
+		return nil
+	}
+	lines := strings.Split(s.Text, "\n")
+	offset := func(p parser.Position) int { // rune offset of a position
+		off := 0
+		for i := 0; i < p.Line && i < len(lines); i++ {
+			off += len([]rune(lines[i])) + 1
+		}
+		return off + p.Character
+	}
+	rs := []rune(s.Text)
+	var out []int
+	for _, st := range pr.Value.Statements {
+		end := offset(st.GetRange().End)
+		if end > len(rs) {
+			end = len(rs)
+		}
+		pre := s
+		pre.Text = string(rs[:end])
+		pre.FailAt = -1
+		o, _ := pre.run()
+		if o.Class != "ok" {
+			out = append(out, -1)
+		} else {
+			out = append(out, len(o.Res.Postings))
+		}
+	}
+	return out
 }
 
 func baseCfg() GenCfg {
@@ -204,6 +259,18 @@ func interpCases(c *Ctx, n int, tweak func(cfg *GenCfg, i int), post func(s *Sce
 		case "twoAssets":
 			prog = g.twoAssetsProgram()
 			c.count("directed:twoAssets")
+		case "overdraftOrigin":
+			prog = g.overdraftOriginProgram()
+			c.count("directed:overdraftOrigin")
+		case "varReuseSaves":
+			prog = g.varReuseProgram(0, true)
+			c.count("directed:varReuseSaves")
+		case "varReuseCaps":
+			prog = g.varReuseProgram(1, false)
+			c.count("directed:varReuseCaps")
+		case "varReuseSends":
+			prog = g.varReuseProgram(2, true)
+			c.count("directed:varReuseSends")
 		default:
 			prog = g.Program()
 		}
@@ -281,11 +348,16 @@ func init() {
 				cfg.Directed = "saveThenUse"
 			case 7:
 				cfg.Directed = "unboundedThenBounded"
+			case 5:
+				cfg.Directed = "varReuseSends"
+			case 1:
+				cfg.Directed = "overdraftOrigin"
 			}
+			cfg.SelfLead = i%8 == 2
 		}, nil)
 	}
 	registry["C02"] = func(c *Ctx) {
-		c.group("scripts", "icase", "judge_C02")
+		c.group("scripts", "c02case", "judge_C02")
 		interpCases(c, c.size(400, 20000), func(cfg *GenCfg, i int) {
 			cfg.IllTyped = 2
 			cfg.BadAllot = 15
@@ -314,6 +386,7 @@ func init() {
 			cfg.KeptBias = i%2 == 0
 			cfg.SmallPool = i%4 == 1
 			cfg.OtherAssetLead = i%7 == 2
+			cfg.SelfLead = i%7 == 5
 			switch i % 10 {
 			case 1:
 				cfg.Directed = "hugeSum"
@@ -339,6 +412,7 @@ func init() {
 			cfg.Origins = false
 			cfg.MaxDepth = 4
 			cfg.SmallPool = i%3 == 0
+			cfg.SelfLead = i%5 == 3
 		}, nil)
 	}
 	registry["C05"] = func(c *Ctx) {
@@ -354,6 +428,9 @@ func init() {
 			cfg.Saves = false
 			cfg.Origins = false
 			cfg.MaxDepth = 4
+			if i%10 == 7 {
+				cfg.Directed = "varReuseCaps"
+			}
 		}, nil)
 	}
 	registry["C06"] = func(c *Ctx) {
@@ -432,6 +509,9 @@ func init() {
 			if i%3 == 0 {
 				cfg.Directed = "saveThenUse"
 			}
+			if i%9 == 4 {
+				cfg.Directed = "varReuseSaves"
+			}
 		}, nil)
 	}
 	registry["C12"] = func(c *Ctx) {
@@ -439,6 +519,18 @@ func init() {
 		if c.replay != nil {
 			c.addScenario(scenarioFromInfo(c.replay), "icase")
 			return
+		}
+		// every hostile text for a variable of every type, directly (vars map) and through meta()
+		hostile := []string{"", " ", "  ", "+", "-", "+5", "-0", "00", "abc", "12", "-7", "USD", "USD 10", "USD  10", "USD 1 0", "USD ten", "USD +5", "USD -5", " USD 5", "USD 5 ", "10 USD",
+			"1/2", "1/0", "3/2", " 1/2", "1 / 2", "1  /2", "50%", "150%", "1.5%", ".5%", "5.%", "%", "/", "0x10", "1e3", "1_000", "99999999999999999999999999", "world", "a:b", "a::b", ":a", "é", "<kept>", "a b", "\n"}
+		for _, typ := range []string{"number", "monetary", "portion", "account", "asset", "string"} {
+			for _, raw := range hostile {
+				text := "vars { " + typ + " $v }\nset_tx_meta(\"k\", $v)\nsend [USD 1] (source = @world destination = @a)"
+				c.addScenario(Scenario{Text: text, Vars: map[string]string{"v": raw}, Bal: numscript.Balances{}, Meta: numscript.AccountsMetadata{}, Kind: skStatic, FailAt: -1}, "icase")
+				textm := "vars { " + typ + " $v = meta(@m, \"k\") }\nset_tx_meta(\"k\", $v)"
+				c.addScenario(Scenario{Text: textm, Vars: map[string]string{}, Bal: numscript.Balances{}, Meta: numscript.AccountsMetadata{"m": {"k": raw}}, Kind: skExact, FailAt: -1}, "icase")
+				c.count("hostile_variable_texts")
+			}
 		}
 		root := NewRand(c.seed)
 		n := c.size(220, 8000)
